@@ -348,11 +348,11 @@ EXPORT void cplx_fftvec_bitwiddle_avx512(const CPLX_FFTVEC_BITWIDDLE_PRECOMP* pr
   const D8MEM* aend = aa + (m >> 2);
   const __m512d om = _mm512_broadcast_f64x4(_mm256_loadu_pd(omg));
   const __m512d om1rr = _mm512_shuffle_pd(om, om, 0);
-  const __m512d om1ii = _mm512_shuffle_pd(om, om, 15);
+  const __m512d om1ii = _mm512_shuffle_pd(om, om, 0b11111111);
   const __m512d om2rr = _mm512_shuffle_pd(om, om, 0);
   const __m512d om2ii = _mm512_shuffle_pd(om, om, 0);
-  const __m512d om3rr = _mm512_shuffle_pd(om, om, 15);
-  const __m512d om3ii = _mm512_shuffle_pd(om, om, 15);
+  const __m512d om3rr = _mm512_shuffle_pd(om, om, 0b11111111);
+  const __m512d om3ii = _mm512_shuffle_pd(om, om, 0b11111111);
   do {
 /*
 BEGIN_TEMPLATE
@@ -360,8 +360,8 @@ __m512d ari% = _mm512_loadu_pd(aa[%]);
 __m512d bri% = _mm512_loadu_pd((aa+OFFSET)[%]);
 __m512d cri% = _mm512_loadu_pd((aa+2*OFFSET)[%]);
 __m512d dri% = _mm512_loadu_pd((aa+3*OFFSET)[%]);
-__m512d pa% = _mm512_shuffle_pd(cri%,cri%,5);
-__m512d pb% = _mm512_shuffle_pd(dri%,dri%,5);
+__m512d pa% = _mm512_shuffle_pd(cri%,cri%,0b01010101);
+__m512d pb% = _mm512_shuffle_pd(dri%,dri%,0b01010101);
 pa% = _mm512_mul_pd(pa%,om1ii);
 pb% = _mm512_mul_pd(pb%,om1ii);
 pa% = _mm512_fmaddsub_pd(cri%,om1rr,pa%);
@@ -370,8 +370,8 @@ cri% = _mm512_sub_pd(ari%,pa%);
 dri% = _mm512_sub_pd(bri%,pb%);
 ari% = _mm512_add_pd(ari%,pa%);
 bri% = _mm512_add_pd(bri%,pb%);
-pa% = _mm512_shuffle_pd(bri%,bri%,5);
-pb% = _mm512_shuffle_pd(dri%,dri%,5);
+pa% = _mm512_shuffle_pd(bri%,bri%,0b01010101);
+pb% = _mm512_shuffle_pd(dri%,dri%,0b01010101);
 pa% = _mm512_mul_pd(pa%,om2ii);
 pb% = _mm512_mul_pd(pb%,om3ii);
 pa% = _mm512_fmaddsub_pd(bri%,om2rr,pa%);
@@ -396,10 +396,10 @@ __m512d cri0 = _mm512_loadu_pd((aa+2*OFFSET)[0]);
 __m512d cri1 = _mm512_loadu_pd((aa+2*OFFSET)[1]);
 __m512d dri0 = _mm512_loadu_pd((aa+3*OFFSET)[0]);
 __m512d dri1 = _mm512_loadu_pd((aa+3*OFFSET)[1]);
-__m512d pa0 = _mm512_shuffle_pd(cri0,cri0,5);
-__m512d pa1 = _mm512_shuffle_pd(cri1,cri1,5);
-__m512d pb0 = _mm512_shuffle_pd(dri0,dri0,5);
-__m512d pb1 = _mm512_shuffle_pd(dri1,dri1,5);
+__m512d pa0 = _mm512_shuffle_pd(cri0,cri0,0b01010101);
+__m512d pa1 = _mm512_shuffle_pd(cri1,cri1,0b01010101);
+__m512d pb0 = _mm512_shuffle_pd(dri0,dri0,0b01010101);
+__m512d pb1 = _mm512_shuffle_pd(dri1,dri1,0b01010101);
 pa0 = _mm512_mul_pd(pa0,om1ii);
 pa1 = _mm512_mul_pd(pa1,om1ii);
 pb0 = _mm512_mul_pd(pb0,om1ii);
@@ -416,10 +416,10 @@ ari0 = _mm512_add_pd(ari0,pa0);
 ari1 = _mm512_add_pd(ari1,pa1);
 bri0 = _mm512_add_pd(bri0,pb0);
 bri1 = _mm512_add_pd(bri1,pb1);
-pa0 = _mm512_shuffle_pd(bri0,bri0,5);
-pa1 = _mm512_shuffle_pd(bri1,bri1,5);
-pb0 = _mm512_shuffle_pd(dri0,dri0,5);
-pb1 = _mm512_shuffle_pd(dri1,dri1,5);
+pa0 = _mm512_shuffle_pd(bri0,bri0,0b01010101);
+pa1 = _mm512_shuffle_pd(bri1,bri1,0b01010101);
+pb0 = _mm512_shuffle_pd(dri0,dri0,0b01010101);
+pb1 = _mm512_shuffle_pd(dri1,dri1,0b01010101);
 pa0 = _mm512_mul_pd(pa0,om2ii);
 pa1 = _mm512_mul_pd(pa1,om2ii);
 pb0 = _mm512_mul_pd(pb0,om3ii);
